@@ -21,6 +21,7 @@ EXPLANATION = ("Rules over HttpSource._byte_it_, DelimSource.read, DiskSink/Disk
                "re-splitting; writer and reader agree on the gz predicate, the single LF terminator and its stripping; the "
                "ARFF attribute types of the grammar each have a case-insensitive arm and the default arm raises.")
 EXPLANATION += " R6: a bare '?' is recognised first, interior and last on the compacted line."
+EXPLANATION += " R2 now folds all str.splitlines boundaries (VT, NEL, LS ...); R3 also: a truncating sink truncates once; R7: CsvReader parses with exactly the caller's dialect."
 
 SRC = "coba/pipes/sources.py"
 SNK = "coba/pipes/sinks.py"
